@@ -605,6 +605,10 @@ func (c *Ctx) build(t *Term) interface{} {
 		return p.Interface()
 	case "nilptr":
 		return (*int)(nil)
+	case "chan":
+		return make(chan int)
+	case "func":
+		return func() {}
 	case "tslice", "tmap", "tarray":
 		// statically typed: the element type is that of the first child
 		vals := c.Values(t.Xs)
